@@ -12,9 +12,11 @@
       lv = e    e ::= a ∘ b | (e) ∘ a | a ∘ (e)    linear expressions: one operand of every operator is atomic (stage 8)
       s++ | s--                        on a 16-bit variable, as statements                              (stage 9)
       lv = e    e ::= a | (e) ∘ (e)    any tree the generator accepts (PHA / PLA spills)                 (stage 10)
+                e ::= … | (e) << k | (e) >> k | ~(e) | -(e)      k a literal 0..7                        (stage 11)
       { S… } | if (c) S | if (c) S else S | while (c) S | do S while (c); | for (F; c; F) S   (stage 2)
       break; | continue; | if (c) break; | if (c) continue;   inside loops                    (stage 5)
       c ::= a ⋈ b | lv | !lv | c && c | c || c | !c     ⋈ ∈ {==, !=, <, >=, >, <=}; no ordered comparison with
+      c ::= … | (e) ⋈ m | m ⋈ (e) | (e) | !(e)          e a *quiet* tree, m a memory operand or constant    (stage 12)
       literal 0, not two constants, not two registers, not `t[X] ⋈ X` (element subscripted by a register against a
       register on the right: the real generator compares the register with itself — recorded finding)
   nested to any depth, any length.
@@ -72,6 +74,20 @@
      scratch cell survives": `evalE_pure`, `evalPlan_pure`). Part of `RStmt`, hence of every theorem above;
      `struct_program_correct_pure` now reads "equal outside `cctmp` and the stack page", for layouts that keep the
      program's cells and `cctmp` out of the stack page.
+   * stage 11 (shifts and unary operators in the trees): `(e) << k`, `(e) >> k` for a literal k ≤ 7 on 8-bit unsigned
+     operands — port of generate_shift (operand from the accumulator, the scratch cell or memory; `PHA` when the
+     accumulator holds an outer operand; k times `ASL` / `LSR`; result handed over through the scratch cell); `~(e)` is
+     the tree `e ^ 255` and `-(e)` the tree `0 − e`, as in generate_bnot / generate_neg. Same theorems
+     (`tree_code_correct`, `tree_value_is_plain` with `shVal` = `<<<` / `>>>` on bytes). Outside: shifts by 8 and more
+     (special cases of the generator), shifts of constants (folded), signed operands (arithmetic shift).
+   * stage 12 (trees in conditions): `(e) ⋈ m`, `m ⋈ (e)`, `if (e)`, `!(e)` where `e` is a tree whose code writes
+     nothing the source can see (`quietE`: no spill, no push, no register operand through the scratch cell — a chain that
+     continues on the accumulator) and `m` a variable, array element or constant: the tree's value stays in A, the
+     compare is `CMP m` with the operator mirrored when the tree was written on the right, `== 0` / `!= 0` and `if (e)`
+     use the flags of the last arithmetic instruction (`CMP #0` first when that was a shift). `evalE_quiet`: such a
+     tree leaves memory, X, Y and SP as they were, so the conditions stay effect-free and the structured-program
+     theorems cover them unchanged (`genCond_correct` cases `cmpETest_correct`, `truthETest_correct`). Trees that spill
+     are not allowed in conditions (the source meaning `sem` evaluates conditions without effect).
    * `fresh_labels`: every label the generator defines is new (counter ranges), the fact behind the
      uniqueness of labels in emitted code (used again by C13).
    * `adc_after_clc`, `sbc_after_sec`, `negate_means_not`, `mirror_means_swap`: the arithmetic and
@@ -379,6 +395,26 @@ example : (GExpr.bin (.bin (.atom .x) .add (.atom (.of (.var "b")))) .sub (.bin 
 example (L : Layout) (σ : SrcSt) : pureE L σ (.bin (.bin (.atom (.of (.const 9))) .add (.atom (.of (.const 1)))) .sub
       (.bin (.atom (.of (.const 7))) .band (.atom (.of (.const 12))))) = 6 := by
   simp [pureE, rval, val, BOp.apply]
+
+/-! non-vacuity of stage 11: `v = (a >> 1) + (c << 2)` — shift, spill, shift into the scratch cell -/
+example : rgenText (fun _ => true) (.expr (.var "v") (.bin (.sh (.atom (.of (.var "a"))) false 1) .add (.sh (.atom (.of (.var "c"))) true 2))) =
+    [(.LDA, "a"), (.LSR, ""), (.PHA, ""), (.LDA, "c"), (.ASL, ""), (.ASL, ""), (.STA, "cctmp"), (.PLA, ""), (.CLC, ""),
+     (.ADC, "cctmp"), (.STA, "v")] := by decide
+example (L : Layout) (σ : SrcSt) : pureE L σ (.bin (.sh (.atom (.of (.const 9))) false 1) .add (.sh (.atom (.of (.const 3))) true 2)) = 16 := by
+  simp [pureE, rval, val, BOp.apply, shVal]
+
+/-! non-vacuity of stage 12: `if (((a & 3) + c) < b) d++;` and `while (a >> 1) a--;` -/
+example : (gen none {} (.ifThen (.cmpE .lt (.bin (.bin (.atom (.of (.var "a"))) .band (.atom (.of (.const 3)))) .add (.atom (.of (.var "c"))))
+      (.var "b") true) (.flat (.inc (.var "d"))))).1.map GLine.text =
+    ["LDA:61", "AND:2333", "CLC:-", "ADC:63", "CMP:62", "BCS:2e6966656e6431", "INC:64", "L:2e6966656e6431"] := by decide
+example : SInFragment (.ifThen (.cmpE .lt (.bin (.bin (.atom (.of (.var "a"))) .band (.atom (.of (.const 3)))) .add (.atom (.of (.var "c"))))
+      (.var "b") true) (.flat (.inc (.var "d")))) = true := by decide
+example : (gen none {} (.while (.truthE (.sh (.atom (.of (.var "a"))) false 1)) (.flat (.dec (.var "a"))))).1.map GLine.text =
+    ["L:2e7768696c6531", "LDA:61", "LSR:-", "CMP:2330", "BEQ:2e7768696c65656e6431", "DEC:61", "JMP:2e7768696c6531",
+     "L:2e7768696c65656e6431"] := by decide
+/-- a tree that spills is not a condition of the fragment -/
+example : CondOK (.truthE (.bin (.bin (.atom (.of (.var "a"))) .add (.atom (.of (.var "b")))) .sub
+      (.bin (.atom (.of (.var "c"))) .band (.atom (.of (.var "d")))))) = false := by decide
 
 /-- a layout that meets the hypotheses of `tree_value_is_plain` (and of `struct_program_correct_pure`): the program's
     cells and `cctmp` in the zero page, below the stack page -/
